@@ -13,6 +13,8 @@ typeinv putCacheOp by newPutCacheOp: !isnil(self.operation)
 typeinv mutateOp by newMutateOp: !isnil(self.operation)
 typeinv collectOp by newCollectOp: !isnil(self.operation)
 typeinv computeHashVisitor by newComputeHashVisitor: !isnil(self.hasher) && !isnil(self.cache)
+typeinv MembershipProof by NewMembershipProof: !isnil(self.hasher)
+typeinv IncrementalProof by NewIncrementalProof: !isnil(self.hasher)
 
 // ---- positions --------------------------------------------------------------
 
@@ -48,6 +50,9 @@ func position.Bytes
   ensures len(result) == 10 && fresh(result)
 
 // ---- operations -------------------------------------------------------------
+// The visitor interfaces are shared by the server-side visitors (which write
+// to their own collections) and the client-side computeHashVisitor (which
+// writes nothing): the frame is conditional on the visitor's dynamic type.
 
 func newLeafHashOp
   props C01 C02 C12
@@ -69,9 +74,22 @@ func newGetCacheOp
   requires pos != nil
   ensures result != nil && fresh(result) && result.pos == pos
 
+func newPutCacheOp
+  props C01 C04 C12
+  requires !isnil(op)
+  ensures result != nil && fresh(result) && result.operation == op
+func newMutateOp
+  props C01 C04 C12
+  requires !isnil(op)
+  ensures result != nil && fresh(result) && result.operation == op
+func newCollectOp
+  props C01 C03 C12
+  requires !isnil(op)
+  ensures result != nil && fresh(result) && result.operation == op
+
 func operation.Accept
   requires !isnil(visitor)
-  modifies everything
+  modifies everything when !istype(visitor, *computeHashVisitor)
   may_panic
 
 func operation.Position
@@ -80,22 +98,22 @@ func operation.Position
 func leafHashOp.Accept
   props C12
   requires !isnil(visitor)
-  modifies everything
+  modifies everything when !istype(visitor, *computeHashVisitor)
   may_panic
 func innerHashOp.Accept
   props C12
   requires !isnil(visitor)
-  modifies everything
+  modifies everything when !istype(visitor, *computeHashVisitor)
   may_panic
 func partialInnerHashOp.Accept
   props C12
   requires !isnil(visitor)
-  modifies everything
+  modifies everything when !istype(visitor, *computeHashVisitor)
   may_panic
 func getCacheOp.Accept
   props C12
   requires !isnil(visitor)
-  modifies everything
+  modifies everything when !istype(visitor, *computeHashVisitor)
   may_panic
 func leafHashOp.Position
   props C12
@@ -111,28 +129,28 @@ func getCacheOp.Position
   ensures result != nil
 
 func opVisitor.VisitLeafHashOp
-  modifies everything
+  modifies everything when !istype(self, *computeHashVisitor)
   may_panic
 func opVisitor.VisitInnerHashOp
-  modifies everything
+  modifies everything when !istype(self, *computeHashVisitor)
   may_panic
 func opVisitor.VisitPartialInnerHashOp
-  modifies everything
+  modifies everything when !istype(self, *computeHashVisitor)
   may_panic
 func opVisitor.VisitGetCacheOp
-  modifies everything
+  modifies everything when !istype(self, *computeHashVisitor)
   may_panic
 func opVisitor.VisitPutCacheOp
-  modifies everything
+  modifies everything when !istype(self, *computeHashVisitor)
   may_panic
 func opVisitor.VisitMutateOp
-  modifies everything
+  modifies everything when !istype(self, *computeHashVisitor)
   may_panic
 func opVisitor.VisitCollectOp
-  modifies everything
+  modifies everything when !istype(self, *computeHashVisitor)
   may_panic
 
-// ---- the client-side (verifying) visitor ------------------------------------
+// ---- the client-side (verifying) visitor: writes nothing ------------------------
 
 func newComputeHashVisitor
   props C12
@@ -141,19 +159,15 @@ func newComputeHashVisitor
 
 func computeHashVisitor.VisitLeafHashOp
   props C12
-  modifies everything
   may_panic
 func computeHashVisitor.VisitInnerHashOp
   props C12
-  modifies everything
   may_panic
 func computeHashVisitor.VisitPartialInnerHashOp
   props C12
-  modifies everything
   may_panic
 func computeHashVisitor.VisitGetCacheOp
   props C12
-  modifies everything
   may_panic
 
 // ---- pruning for verification (recursion on pos.Height terminates) ------------
@@ -194,13 +208,19 @@ func ParseAuditPath
   props C12 C13
   ensures result != nil
 
+func NewMembershipProof
+  props C02 C12 C13
+  requires !isnil(hasher)
+  ensures result != nil && fresh(result) && result.Index == index && result.Version == version && result.AuditPath == auditPath
+
+func NewIncrementalProof
+  props C03 C12 C13
+  requires !isnil(hasher)
+  ensures result != nil && fresh(result) && result.StartVersion == start && result.EndVersion == end && result.AuditPath == auditPath
+
 func MembershipProof.Verify
   props C02 C12
-  requires !isnil(p.hasher)
-  modifies everything
 
 func IncrementalProof.Verify
   props C03 C12
-  requires !isnil(p.hasher)
-  modifies everything
 @*/
